@@ -16,8 +16,9 @@ spec/Curve.tla   a sequencer and case oracle (TLC has no 256-bit arithmetic), fo
   1. TLC: formulas, tables identities (broken variants refuted), field / group type invariants
   2. G->R: every transition of the abstract state graph (VIEW = representation attributes) is exported with the
      concrete shortest path and replayed on secp256k1.Field / XYZ / XY; the reference evaluates the model's expression /
-     form after EVERY step (normalised bytes, infinity flag, magnitudes of the real limbs, observers); plus simulated
-     longer behaviours
+     form after EVERY step (normalised bytes, infinity flag, magnitudes of the real limbs, observers); every input that
+     is not the destination must keep its value, and the group calls are repeated with the same operand objects; plus
+     simulated longer behaviours
   3. every table entry the model names is compared with TableScalar*G from the reference
   3b. every limb pattern through every allowed Field method (Normalize, IsOdd, IsZero, GetB32, Equals, Mul, Sqr, Inv,
      InvVar, Negate, SetAdd, MulInt); decompression (SetXO, DecompressPoint, ParsePubkey, ParseXOnlyPubkey, recovery)
